@@ -215,7 +215,7 @@ class IndentationRater(IndentationFeatures):
 
         samples = [np.loadtxt(sp, dtype=float, ndmin=2) for sp in sample_paths]
         samples = np.concatenate(samples, axis=1)
-        response = np.loadtxt(resp_path, dtype=float)
+        response = np.loadtxt(resp_path, dtype=float, ndmin=1)
 
         # Deal with NaN-valued feature data with a response of 0.
         if impute_zero_rated_nan:
